@@ -95,12 +95,12 @@ func inFocus(prop string, o op) bool {
 		if o.Kind == "rebuild-indexes" {
 			return false
 		}
-		return !(hdr && o.Arg != "hdr:time=head:resigned") && !(badBody && o.Arg != "bad-txn[wrap-hour-sum-G]" && o.Arg != "double-spend-in-block[pay-G-A,pay-G-B]")
+		return !(hdr && o.Arg != "hdr:time=head:resigned") && !(badBody && !strings.HasPrefix(o.Arg, "bad-txn[wrap-hour-sum") && o.Arg != "double-spend-in-block[pay-G-A,pay-G-B]")
 	case "C07":
 		if o.Kind == "inject-user" {
 			return false
 		}
-		return !hdr && !(badBody && o.Arg != "bad-txn[wrap-hour-sum-G]")
+		return !hdr && !(badBody && !strings.HasPrefix(o.Arg, "bad-txn[wrap-hour-sum"))
 	}
 	return true
 }
